@@ -285,6 +285,8 @@ func directedDefs() []*extDef {
 		{ID: 906, Domain: true, Fields: []fieldDef{fd("Source", "ptr", ""), fd("Name", "kstrerr", "p"), fd("Message", "string", "pc"), fd("", "kmeta", "pc")}},
 		{ID: 907, Domain: true, Fields: []fieldDef{fd("", "kmeta", "meta=p"), fd("Code", "kstr", "pc")}},
 		{ID: 908, Skip: true, Domain: true, Fields: []fieldDef{fd("Message", "int", "c"), fd("Source", "string", "-"), fd("Name", "strs", "pc")}},
+		{ID: 909, Domain: true, Fields: []fieldDef{fd("Source", "string", "pc"), fd("Name", "string", "shown=p"), fd("Message", "string", "c")}},
+		{ID: 910, Skip: true, Domain: true, Fields: []fieldDef{fd("Name", "string", "pc"), fd("Message", "string", "pc"), fd("Source", "string", "")}},
 	}
 }
 
@@ -815,18 +817,23 @@ func (e *c09env) close() {
 
 // gxImpl forwards every line to the probe.
 type gxImpl struct {
-	env    *c09env
-	failed map[int]string // definitions whose generated code did not compile -> class
+	env     *c09env
+	failed  map[int]string // definitions whose generated code did not compile -> class
+	defined map[int]bool   // failed definitions this case has defined so far
 }
 
-func (g *gxImpl) Reset() {}
+func (g *gxImpl) Reset() { g.defined = map[int]bool{} }
 func (g *gxImpl) Exec(line string) string {
 	if ws := strings.Fields(line); len(ws) >= 3 && ws[0] == "gx" && (ws[1] == "def" || ws[1] == "build") {
 		if id, err := strconv.Atoi(ws[2]); err == nil {
 			if cls, bad := g.failed[id]; bad {
 				// not in the probe: the generator wrote code for it (exit 0) that does not compile
-				if ws[1] == "def" {
+				switch {
+				case ws[1] == "def":
+					g.defined[id] = true
 					return "ok"
+				case !g.defined[id]:
+					return "bad-def"
 				}
 				return "fail:" + cls
 			}
@@ -1066,7 +1073,7 @@ func shapeTags(d *extDef) []string {
 }
 
 func runC09(f *hx.Flags) {
-	rule := "random extension structs (0-6 extra fields of 9 assorted types and of 15 defined string/int/bool/struct/pointer types that have their own String/Error/Format/GoString method on value or pointer receivers - how %v renders their values is asked of fmt by the harness, apart from any generated code; untagged / print / clone / both in either order / renamed / extra tag keys; own fields NAMED Source / Name / Message that shadow the embedded GError's, of string and other types; an embedded struct with fields of those names) plus 8 fixed definitions covering each of these classes, half of them generated with -skipConvertGen, all produced by the real gerror CLI into two scratch packages and compiled with a probe program; for each definition and each of the 4 presets (empty/preset Message x Source) all 19 (17 with -skipConvertGen) methods are called with random arguments on the extension factory and on a plain GError with the same base fields from the same function, some chains continued one step; observed: name, message, source, detail tag, stack length of both results, every extra field of the extension result, and Error() of both without the stack text. The expected answers are the specification's (plain-GError semantics, clone fields copied, others zero, print fields sorted under their print names). non-trivial: every case; distinct by request lines"
+	rule := "random extension structs (0-6 extra fields of 9 assorted types and of 15 defined string/int/bool/struct/pointer types that have their own String/Error/Format/GoString method on value or pointer receivers - how %v renders their values is asked of fmt by the harness, apart from any generated code; untagged / print / clone / both in either order / renamed / extra tag keys; own fields NAMED Source / Name / Message that shadow the embedded GError's, of string and other types; an embedded struct with fields of those names) plus 10 fixed definitions covering each of these classes, half of them generated with -skipConvertGen, all produced by the real gerror CLI into two scratch packages and compiled with a probe program; for each definition and each of the 4 presets (empty/preset Message x Source) all 19 (17 with -skipConvertGen) methods are called with random arguments on the extension factory and on a plain GError with the same base fields from the same function, some chains continued one step; observed: name, message, source, detail tag, stack length of both results, every extra field of the extension result, and Error() of both without the stack text. The expected answers are the specification's (plain-GError semantics, clone fields copied, others zero, print fields sorted under their print names). non-trivial: every case; distinct by request lines"
 	impl := &gxImpl{}
 	r := hx.NewRunner(f, "h-gerrclone", impl, rule)
 	r.KeyOf = func(d *hx.Disagreement) string {
